@@ -278,6 +278,7 @@ func TestAVCPPS(t *testing.T) {
 			harness.Rec.Sample(map[string]interface{}{"kind": "avcpps", "case": c})
 		}
 		f := harness.Guarded(func() *harness.Fail { return checkAVCPPS(c) })
+		avcReplayConsistent(rt, raw, f, harness.Replayer(checkAVCPPS))
 		harness.Report(rt, "avcpps", c, f)
 	})
 }
